@@ -225,7 +225,7 @@ def dynamic_crosscheck(tab):
         if [b.__name__ for b in k.__bases__] != c["bases"]:
             bad.append(f"bases of {k.__name__}: extracted {c['bases']} run-time {[b.__name__ for b in k.__bases__]}")
         for m in ("__getattr__", "__getattribute__"):
-            if m in k.__dict__ or m in type(k).__dict__:
+            if m in k.__dict__ or (type(k).__module__.startswith("linear_operator") and m in type(k).__dict__):
                 bad.append(f"{k.__name__} (or its metaclass) defines {m}: attribute lookup is no longer plain MRO resolution")
         for m in tab["interest"]:
             if (m in k.__dict__) != (m in c["defines"]):
